@@ -461,6 +461,112 @@ theorem struct_value_validates (leafOK : Field → J → Bool) (ra : Option Rule
       simp only [expect, propOK, List.any_eq_true]
       exact ⟨p, hp, by simp [hwr, hn, hav]⟩
 
+/-! ### values of enums -/
+
+theorem validates_tag (leaf : Sch → JV → Bool) (f : Nat) (tag : Str) : validates leaf (f + 1) (.enm [tag]) (.str tag) = true := by
+  simp [validates]
+
+/-- **a variant's value validates against that variant's schema**, in every representation: externally tagged (bare name / single key),
+internally tagged (the content's own properties plus the tag), adjacently tagged (tag alone / tag and content), untagged.  `hin`: an
+internally tagged variant has struct-like content whose fields are not called like the tag; `hadj`: tag and content keys differ (serde
+refuses the other cases at compile time) -/
+theorem variant_value_validates (leaf : Sch → JV → Bool) (f : Nat) (content s : Sch) (w : Serde.Wire) (cj : JV)
+    (hr : Realises content s w)
+    (hc : validates leaf (f + 2) content cj = true)
+    (hin : ∀ t tag, w = .inline t tag → ∃ ps kvs, content = .obj ps [] ∧ cj = .obj kvs ∧ (∀ p ∈ ps, p.1 ≠ t))
+    (hadj : ∀ t tag c, w = .adjacent t tag c → t ≠ c) :
+    validates leaf (f + 2 + w.depth) s (Serde.serVariant w cj) = true := by
+  cases w with
+  | bare tag => simp only [Realises] at hr; subst hr; simp [Serde.serVariant, validates, Serde.Wire.depth]
+  | keyed tag =>
+    simp only [Realises] at hr; subst hr
+    simp [Serde.serVariant, validates, lookupV, hc, Serde.Wire.depth]
+  | tagOnly t tag =>
+    simp only [Realises] at hr; subst hr
+    simp [Serde.serVariant, validates, lookupV, Serde.Wire.depth]
+  | adjacent t tag c =>
+    simp only [Realises] at hr; subst hr
+    have htc := hadj t tag c rfl
+    simp [Serde.serVariant, validates, lookupV, htc, Ne.symm htc, hc, Serde.Wire.depth]
+  | content => simp only [Realises] at hr; subst hr; simpa [Serde.serVariant, Serde.Wire.depth] using hc
+  | inline t tag =>
+    obtain ⟨ps, kvs, hcont, hcj, hne⟩ := hin t tag rfl
+    subst hcont hcj
+    simp only [Realises] at hr
+    rcases hr with ⟨ps', fl', he, hs⟩ | ⟨hno, _⟩
+    · cases he; subst hs
+      simp only [Serde.serVariant, Serde.Wire.depth, Nat.add_zero, validates, List.isEmpty_nil, Bool.true_and, List.all_append, List.all_cons,
+        List.all_nil, Bool.and_true, Bool.and_eq_true]
+      constructor
+      · simp only [validates, List.isEmpty_nil, Bool.true_and] at hc
+        rw [List.all_eq_true] at hc ⊢
+        intro p hp
+        have := hc p hp
+        have hpt : ¬ t = p.1 := fun e => hne p hp e.symm
+        simpa [lookupV, hpt] using this
+      · simp [lookupV, validates]
+    · exact absurd rfl (hno ps [])
+
+/-- **a variant's value does not validate against ANOTHER externally tagged variant's schema** when the names differ: the alternatives of
+the `oneOf` are disjoint -/
+theorem external_disjoint (leaf : Sch → JV → Bool) (f : Nat) (c1 c2 s2 : Sch) (w1 w2 : Serde.Wire) (cj : JV) (t1 t2 : Str)
+    (h1 : w1 = .bare t1 ∨ w1 = .keyed t1) (h2 : w2 = .bare t2 ∨ w2 = .keyed t2) (hne : t1 ≠ t2) (hr2 : Realises c2 s2 w2) :
+    validates leaf (f + 1) s2 (Serde.serVariant w1 cj) = false := by
+  rcases h1 with rfl | rfl <;> rcases h2 with rfl | rfl <;> simp only [Realises] at hr2 <;> subst hr2 <;>
+    simp [Serde.serVariant, validates, lookupV, hne, Ne.symm hne]
+
+
+theorem ext_own (leaf : Sch → JV → Bool) (f : Nat) (v : ExtVariant) (cj : JV) (hc : v.unit = false → validates leaf (f + 2) v.content cj = true) :
+    validates leaf (f + 3) v.schema (v.value cj) = true := by
+  unfold ExtVariant.schema ExtVariant.value
+  cases hu : v.unit with
+  | true => simp [validates]
+  | false => simp [validates, lookupV, hc hu]
+
+theorem ext_other (leaf : Sch → JV → Bool) (f : Nat) (v u : ExtVariant) (cj : JV) (hne : v.tag ≠ u.tag) :
+    validates leaf (f + 1) u.schema (v.value cj) = false := by
+  unfold ExtVariant.schema ExtVariant.value
+  cases v.unit <;> cases u.unit <;> simp [validates, lookupV, hne, Ne.symm hne]
+
+/-- **Every value of an externally tagged enum validates against the derived `oneOf`**: it fits its own variant's alternative and no
+other — for any number of variants with distinct serialized names, unit and data-carrying mixed -/
+theorem external_enum_validates (leaf : Sch → JV → Bool) (f : Nat) : ∀ (vs : List ExtVariant), (vs.map (·.tag)).Nodup →
+    ∀ v ∈ vs, ∀ cj, (v.unit = false → validates leaf (f + 2) v.content cj = true) →
+    validates leaf (f + 4) (.oneOf (vs.map (·.schema))) (v.value cj) = true := by
+  intro vs hnd v hv cj hc
+  have key : ∀ (l : List ExtVariant), (l.map (·.tag)).Nodup → (v ∈ l → ((l.map (·.schema)).filter fun s => validates leaf (f + 3) s (v.value cj)).length = 1) ∧
+      (v.tag ∉ l.map (·.tag) → ((l.map (·.schema)).filter fun s => validates leaf (f + 3) s (v.value cj)).length = 0) := by
+    intro l
+    induction l with
+    | nil => intro _; exact ⟨fun h => (by cases h), fun _ => rfl⟩
+    | cons u us ih =>
+      intro hnd'
+      simp only [List.map_cons, List.nodup_cons] at hnd'
+      obtain ⟨ih1, ih0⟩ := ih hnd'.2
+      constructor
+      · intro hmem
+        rcases List.mem_cons.mp hmem with rfl | hmem
+        · have h0 := ih0 hnd'.1
+          simp only [List.map_cons, List.filter, ext_own leaf f v cj hc]
+          simp only [List.length_cons, h0]
+        · have hne : v.tag ≠ u.tag := fun e => hnd'.1 (by rw [← e]; exact List.mem_map.mpr ⟨v, hmem, rfl⟩)
+          simp only [List.map_cons, List.filter, ext_other leaf (f + 2) v u cj hne]
+          exact ih1 hmem
+      · intro hnot
+        simp only [List.map_cons, List.mem_cons, not_or] at hnot
+        simp only [List.map_cons, List.filter, ext_other leaf (f + 2) v u cj hnot.1]
+        exact ih0 hnot.2
+  have := (key vs hnd).1 hv
+  simp only [validates, this]
+  rfl
+
+
+/-- the alternatives of `external_enum_validates` are the shapes the derive builds (`variant_realises`) for the externally tagged
+representations -/
+theorem ext_schema_realises (v : ExtVariant) : Realises v.content v.schema (if v.unit then .bare v.tag else .keyed v.tag) := by
+  unfold ExtVariant.schema
+  cases v.unit <;> simp [Realises]
+
 /-! ### non-vacuity: concrete definitions that meet the hypotheses -/
 
 private def f1 : Field := { ident := ['u','s','e','r','_','n','a','m','e'], ty := "String", inner := "String" }
